@@ -36,8 +36,8 @@ RULE = ('Archives: every ordered tar archive of 1..2 members (3 in thorough; qui
         'and "hard link, then overwrite" patterns are included); each staged by Job.stageIn (1..2 members) and by '
         "StageReference directly. Link chains: every archive of 2..3 (thorough 4) members with distinct names from {a, d, d/a, "
         "a/x} x {file, dir, symlink->{., .., a/.., d/.., d/a/..}} (each link lexically inside, composing on disk) through "
-        "StageReference, plus (quick) the 4-member ones that the trusting-writer model says compose to an escape; those "
-        "composing ones also through Job.stageIn. "
+        "StageReference; those that compose to an escape according to the trusting-writer model also through "
+        "Job.stageIn. "
         '1-member archives are additionally staged gzip-compressed, from a producer '
         "component's directory and via an absolute-path reference. Reference lists: every list of 1..2 references "
         'from 11 sources (files, directories, links to them, directories containing links, trailing "/", "/." and '
@@ -548,11 +548,6 @@ def job_cases(thorough):
         yield _archive_case('J', members, compress='gz')
         yield _archive_case('J', members, via='producer')
         yield _archive_case('J', members, via='abs')
-    # link chains (distinct names, every member lexically inside): those that compose to an escape (feature K)
-    for n in (2, 3, 4) if thorough else (2, 3):
-        for members in G.chain_archives(n):
-            if SB.archive_features(members) == 'K':
-                yield _archive_case('J', members)
     for refs in G.ref_lists(1, G.REF_METHODS):
         yield {'part': 'R', 'refs': refs, 'archive': None}
     for refs in G.ref_lists(2, G.REF_METHODS if thorough else ['copy', 'link']):
@@ -595,6 +590,17 @@ def worker_job(col, item, tier, seed):
         run_job_case(col, c)
     if cases and lo % 7 == 0:
         col.sample(cases[0])
+
+
+def worker_job_chain(col, item, tier, seed):
+    """Job.stageIn on the link-chain archives whose links compose to an escape (feature K of the model)."""
+    global _RUN_DIR
+    n, lo, hi, known, _RUN_DIR = item
+    col.__dict__['_c18_seen'] = set(known)
+    for idx in range(lo, hi):
+        members = G.chain_archive_by_index(n, idx)
+        if sum(1 for m in members if m['kind'] == 'sym') >= 2 and SB.archive_features(members) == 'K':
+            run_job_case(col, _archive_case('J', members))
 
 
 def worker_manifest(col, item, tier, seed):
@@ -676,6 +682,10 @@ def _run(ctx, run_dir):
     n_job = len(job_case_list(thorough))
     ctx.count('job_stagein_cases', n_job)
     _pmap_batched(ctx, 'worker_job', _chunks(n_job, 40), run_dir)
+    items = []
+    for n in (2, 3, 4) if thorough else (2, 3):
+        items += [(n, lo, hi) for lo, hi in _chunks(G.n_chain_archives(n), 512)]
+    _pmap_batched(ctx, 'worker_job_chain', items, run_dir)
     n_man = sum(1 for _ in manifest_cases(thorough))
     ctx.count('manifest_cases', n_man)
     _pmap_batched(ctx, 'worker_manifest', _chunks(n_man, 16), run_dir)
@@ -703,8 +713,6 @@ def _run(ctx, run_dir):
     if thorough:
         n_s += tot4
         items += [('chain4', lo, hi, 1, 0) for lo, hi in _chunks(tot4, 2048)]
-    else:
-        items += [('chain4K', lo, hi, 1, 0) for lo, hi in _chunks(tot4, 4096)]
     ctx.count('stagereference_cases_enumerated', n_s)
     _pmap_batched(ctx, 'worker_stageref', items, run_dir)
     ctx.sample({'part': 'S', 'archive': G.archive_by_index(2, 1234)})
